@@ -72,7 +72,21 @@ def _impl(case):
     g = make_graph(case["nodes"], case["imps"])
     bare, qual = _texts(case)
     out = []
-    with Project({"bare.puml": bare, "qual.puml": qual}) as p:
+    def run(path, which, only):
+        r = DiagramRule(should_only_rule=only).from_file(path)
+        r = r.base_module_included_in_module_names() if which == "qual" else r.with_base_module(case["base"])
+        try:
+            r.assert_applies(g)
+            return "PASS"
+        except AssertionError as e:
+            return "FAIL:" + ";".join(parse_message(str(e)))
+        except Exception as e:  # noqa: BLE001
+            return "ERR:" + err_kind(e)
+
+    with Project({"bare.puml": bare, "qual.puml": qual, "again.puml": qual}) as p:
+        # the same diagram file evaluated in the other mode first must not influence the result
+        run(p.path("again.puml"), "qual", not case["only"])
+        out.append(("AGAIN", run(p.path("again.puml"), "qual", case["only"])))
         for which in ("qual", "bare"):
             r = DiagramRule(should_only_rule=case["only"]).from_file(p.path(which + ".puml"))
             r = r.base_module_included_in_module_names() if which == "qual" else r.with_base_module(case["base"])
@@ -98,7 +112,8 @@ def line_for(case):
 def judge(ctx, stream, cases):
     impl = pmap(_impl, cases, ctx.jobs, chunk=100)
     ans = run_driver([line_for(c) for c in cases])
-    for c, (iq, ib), a in zip(cases, impl, ans):
+    for c, (again, iq, ib), a in zip(cases, impl, ans):
+        again = again[1]
         a = parse_answer(a)
         stream.evaluations += 1
         i = iq if c["qualified"] else ib
@@ -118,6 +133,8 @@ def judge(ctx, stream, cases):
             bad = f"DiagramRule verdict {icls} but conformance says {s}"
         elif iq != ib:
             bad = "with_base_module(p) behaves differently from writing every component as p.name"
+        elif again != iq:
+            bad = f"evaluating the same diagram file in the other mode first changes the outcome: {again} vs {iq}"
         if bad:
             ctx.violations.append({"kind": "property-violation", "what": bad, "line": line_for(c), "impl_qualified": iq, "impl_with_base_module": ib,
                                    "model": m, "spec": s, "diagram": _texts(c)[1 if not c["qualified"] else 1]})
